@@ -147,22 +147,42 @@ func c10(c *Ctx) {
 	if snapF == nil {
 		c.Missing("R3", "sdk/trace.(*recordingSpan).snapshot")
 	} else {
-		snaps := g.Match(func(n ast.Node) bool {
+		isSnapCall := func(n ast.Node) bool {
 			call, ok := n.(*ast.CallExpr)
 			if !ok {
 				return false
 			}
 			f := callee(info, call)
 			return f != nil && f.Origin() == snapF.Obj.Origin()
-		})
+		}
+		snaps := g.Match(isSnapCall)
 		st := map[*GNode]bool{}
 		for _, x := range stores {
 			st[x] = true
 		}
+		// the snapshot and the fan-out may have been moved, together, into a helper End calls after marking the span ended
+		gEnd := g
+		viaHelper := (*GNode)(nil)
+		if len(snaps) == 0 {
+			if w, _ := ix.workFunc(end, isSnapCall); w != nil && w != end {
+				for _, x := range g.Match(func(n ast.Node) bool { call, ok := n.(*ast.CallExpr); return ok && callToDecl(info, w)(call) }) {
+					viaHelper = x
+				}
+				if viaHelper != nil {
+					g = ix.FG(w)
+					snaps = g.Match(isSnapCall)
+				}
+			}
+		}
 		okSnap := len(snaps) == 1
 		if okSnap {
-			d, _ := g.DominatedByNodes(snaps[0], st)
-			okSnap = d && !g.InCycle(snaps[0])
+			if viaHelper != nil {
+				d, _ := gEnd.DominatedByNodes(viaHelper, st)
+				okSnap = d && !gEnd.InCycle(viaHelper) && !g.InCycle(snaps[0])
+			} else {
+				d, _ := g.DominatedByNodes(snaps[0], st)
+				okSnap = d && !g.InCycle(snaps[0])
+			}
 		}
 		c.Check(okSnap, "R3", "sdk/trace|(*recordingSpan).End|snapshot taken once, after endTime is stored", at(ix.M, end.Pos()),
 			"one snapshot() call, dominated by the endTime store, outside any loop", "End must take exactly one snapshot after marking the span ended (every processor sees the same final state)")
@@ -198,6 +218,7 @@ func c10(c *Ctx) {
 				"every loaded processor receives OnEnd(snapshot) on every iteration", "a registered processor can be skipped, or receives something other than the one snapshot: "+why)
 		}
 	}
+	g = ix.FG(end)
 	// no processor/exporter call while a recordingSpan mutex may be held
 	spanT := lookupType(ix.Pkg, "recordingSpan")
 	for _, s := range ix.FindCalls(func(f *FuncInfo, call *ast.CallExpr) bool {
